@@ -149,6 +149,18 @@ impl Scenario for Sec {
                 op
             }
             5 => Op::new(Kind::SetRole, String::new()).named(*rng.pick(&ROLES)),
+            7 if rng.chance(1, 2) => {
+                // column-level grants / revokes: they never amount to the table-level privilege the
+                // statements below need, so the model ignores them (fault label "column")
+                let r = *rng.pick(&ROLES);
+                let t = *rng.pick(&TABLES);
+                let p = *rng.pick(&["SELECT", "INSERT", "UPDATE"]);
+                let c = *rng.pick(&["k", "v", "k, v"]);
+                let sql = if rng.chance(2, 3) { format!("GRANT {} ({}) ON {} TO {}", p, c, t, r) } else { format!("REVOKE {} ({}) ON {} FROM {}", p, c, t, r) };
+                let mut op = Op::new(Kind::Security, sql);
+                op.fault = "column:".into();
+                op
+            }
             6 if rng.chance(1, 2) => {
                 // keep the tables populated (as ADMIN)
                 self.next_key += 1;
